@@ -59,11 +59,11 @@ type Ledger struct {
 	// AccHEpochs / AccDEpochs: the incarnations (fence epochs) of the submitting node in which the part was accepted
 	AccHEpochs map[uint64]map[int]bool
 	AccDEpochs map[uint64]map[int]bool
-	maxHW    uint64 // largest persisted header watermark seen
-	maxDW    uint64
-	memHW    uint64
-	memDW    uint64
-	memInc   int
+	maxHW      uint64 // largest persisted header watermark seen
+	maxDW      uint64
+	memHW      uint64
+	memDW      uint64
+	memInc     int
 }
 
 func NewLedger(w *World, n *Node) *Ledger {
